@@ -8,7 +8,7 @@ from . import common
 
 NAME = "U-cond"
 TOOL = "verus"
-PROPS = ["C07", "C06", "C16"]
+PROPS = ["C07", "C06", "C16", "C08"]
 RLIMIT = 100
 TRUSTED = ["verus 0.2026.09.13 + z3", "A-vstd (Vec push/pop)"]
 
@@ -229,12 +229,12 @@ pub fn step_endif(state: State, stack: &mut Vec<State>, Ghost(f): Ghost<Seq<Fram
 // R8: guard of %(n)s (condition text verbatim)
 pub fn guard_%(n)s(state: State, Ghost(f): Ghost<Seq<Frame>>) -> (r: bool)
     requires state == state_of(f),
-    ensures r == emits(f), //@ C07:guard-%(n)s
+    ensures r == emits(f), //@ %(tags)s:guard-%(n)s
 {
     proof { lemma_state_active(f); }
     %(c)s
 }
-""" % {"n": gname, "c": cond})
+""" % {"n": gname, "c": cond, "tags": "C07,C08" if gname in ("undef", "define") else "C07"})      # a #define / #undef in text that is not compiled must leave the macro table alone (C08)
     # ---- #include arm: context frame around the recursive call (C06)
     ob, cb = arm("#include")
     m1 = re.search(r"context\.current_filename = ", masked[ob:cb])
